@@ -146,33 +146,462 @@ HARNESSES = {
                '(False, True, list/tuple/set covering everything, list and set covering part, empty list); static '
                'registration'),
 }
-OUTSIDE = 'more than 4 statements; skip lists other than the 8/4 forms listed'
+OUTSIDE = ('more than 4 statements (c15_skip) / 3 statements (c15_wide, c15_dynamic*) / 2 statements (c15_files); skip lists other than the 8 / 10 / 4 / 7 forms listed; a list entry spelled differently from the text (partial selector, scoped spelling): the statement does not say whether that counts as listed; invalid forms of skip_unknown (None, int, str: outside the quantifier); gin.config_str() while placeholders are stored; a module whose ImportError carries no name; a name that becomes known after the parse (re-parse, later registration); use of a name before its own import under dynamic registration')
 ASSUMPTIONS = ['stored placeholders are observed through the private gin.config._CONFIG and compared by (selector, evaluate)',
-               'interpretation: an unknown reference not covered by the list is an error wherever it occurs, also inside a statement that is itself skipped']
+               'interpretation: an unknown reference not covered by the list is an error wherever it occurs, also inside a statement that is itself skipped',
+               'interpretation: a name that matches two configurables (ambiguous) and a known configurable with a parameter that cannot be bound are not "unknown": the statement stays in the reduced text, so the parse fails under every form of skip_unknown (any exception class accepted)',
+               'interpretation: for `import m` where m exists but its own import of a dependency fails, "import of a missing module" can be read both ways: under a truthy skip_unknown both "skipped" and "ImportError" are accepted (never another exception); under a falsy one ImportError is demanded',
+               'interpretation: get_bindings(resolve_references=True) counts as use (must raise, or hand the placeholder back intact); query_parameter and get_bindings(resolve_references=False) must hand the placeholder back (raising the same error is accepted); a scoped binding is used only by calls under its scope',
+               'files are served from the in-memory reader of vf.world (absolute paths /c15/*.gin)']
+
+
+
+# ==== wide vocabulary: the same reference model over more kinds of statement, more forms of the list, ====
+# ==== more ways of USING a stored placeholder and more ways of handing the text to gin ===================
+import os as _os
+import sys as _sys
+_FIX = _os.path.join(_os.path.dirname(_os.path.dirname(_os.path.dirname(_os.path.abspath(__file__)))), 'fixtures')
+if _FIX not in _sys.path:
+  _sys.path.insert(0, _FIX)
+
+ERR = 'ERR'   # the statement names a KNOWN (or ambiguous) configurable but cannot be applied: an error under
+              # every form of skip_unknown (it is not 'unknown', so it is never deleted from the text)
+DEP = 'DEP'   # import of a module that exists but itself imports a missing one
+WKINDS = [row + ({},) for row in KINDS] + [
+    # 11-12: placeholders as dict KEYS (evaluated at top level of the dict / unevaluated, scoped, nested)
+    (['vw.cons.q = {@unkref(): 1}'], None, ['unkref'], [('', 'vw.cons', 'q', {U('unkref', True): 1})], {}),
+    (['vw.lit.p = [{@sc/unkref2: [2]}]'], None, ['unkref2'],
+     [('', 'vw.lit', 'p', [{U('unkref2', False): [2]}])], {}),
+    # 13: macro -> placeholder, dereferenced by a consumer
+    (['mac2 = @unkref()', 'vw.cons.p = %mac2'], None, ['unkref'],
+     [('mac2', 'gin.macro', 'value', U('unkref', True)), ('', 'vw.cons', 'p', ('REF', 'mac2/gin.macro', True))], {}),
+    # 14: top-level UNevaluated placeholder
+    (['vw.cons.p = @unkref'], None, ['unkref'], [('', 'vw.cons', 'p', U('unkref', False))], {}),
+    # 15: placeholder in a scoped binding
+    (['sc/vw.cons.p = @unkref()'], None, ['unkref'], [('sc', 'vw.cons', 'p', U('unkref', True))], {}),
+    # 16-18: scoped unknown targets (binding, block) and a scoped macro holding a placeholder
+    (['a/b/vw.unk1.x = 1'], 'vw.unk1', [], [], {}),
+    (['a/vw.unk2:', '  x = 1', "  y = 'two'"], 'vw.unk2', [], [], {}),
+    (['sc/mac = @unkref()'], None, ['unkref'], [('sc/mac', 'gin.macro', 'value', U('unkref', True))], {}),
+    # 19-21: blocks that hold references (known block + unknown refs; unknown block + unknown / known refs)
+    (['vw.cons:', '  p = @unkref()', '  q = [@unkref2]'], None, ['unkref', 'unkref2'],
+     [('', 'vw.cons', 'p', U('unkref', True)), ('', 'vw.cons', 'q', [U('unkref2', False)])], {}),
+    (['vw.unk2:', '  x = @unkref()'], 'vw.unk2', ['unkref'], [], {}),
+    (['vw.unk2:', '  x = @vw.src()', '  y = %vwc.V0'], 'vw.unk2', [], [], {}),
+    # 22-25: near-miss names (known last component under a wrong prefix, unknown method of a known class)
+    (['zz.dflt.a = 1'], 'zz.dflt', [], [], {}),
+    (['vw.zz.dflt.a = 1'], 'vw.zz.dflt', [], [], {}),
+    (['vw.Kmeth.nosuch.a = 1'], 'vw.Kmeth.nosuch', [], [], {}),
+    (['vw.lit.q = @zz.dflt()'], None, ['zz.dflt'], [('', 'vw.lit', 'q', U('zz.dflt', True))], {}),
+    # 26-27: an AMBIGUOUS name (two configurables match) is not unknown: never skipped, always an error
+    (['fam.p = 1'], None, [], [], {ERR: 1}),
+    (['vw.lit.p = @fam()'], None, [], [], {ERR: 1}),
+    # 28-30: known target, parameter that cannot be bound: an error, never a skip
+    (['vw.dflt.nosuch = 1'], None, [], [], {ERR: 1}),
+    (['vw.deny_b.b = 1'], None, [], [], {ERR: 1}),
+    (['vw.allow_a.b = 1'], None, [], [], {ERR: 1}),
+    # 31: (control for 28-30) the bindable parameter of the allow-listed probe
+    (['vw.allow_a.a = 2'], None, [], [('', 'vw.allow_a', 'a', 2)], {}),
+    # 32: import of an existing module whose own import of a dependency fails (ImportError.name = dependency)
+    (['import c15fx_dep'], 'IMPORT', [], [], {DEP: 1}),
+]
+NW = len(WKINDS)
+NEWK = list(range(NK, NW))
+ALLN = ['vw.unk1', 'vw.unk2', 'unkref', 'unkref2', 'zz.dflt', 'vw.zz.dflt', 'vw.Kmeth.nosuch']
+WSKIPS = [False, True, list(ALLN), ['vw.unk1'], tuple(ALLN), {'vw.unk2', 'unkref'}, [], set(ALLN),
+          # KNOWN names in the list (must change nothing for them) next to two unknown ones
+          ['vw.dflt', 'vw.cons', 'vw.lit', 'vw.src', 'fam', 'vw.deny_b', 'vw.allow_a', 'vw.unk1', 'unkref'],
+          # references only
+          ('unkref', 'unkref2', 'zz.dflt')]
+NWS = len(WSKIPS)
+assert (NW, NWS) == (33, 10)     # the literal bounds in the `pre:` line of c15_wide
+
+
+def canonk(v):
+  """canon() that also canonicalises dict keys (a placeholder can be a key)."""
+  if isinstance(v, (gc._UnknownConfigurableReference, gc.ConfigurableReference)):
+    return canon(v)
+  if isinstance(v, list):
+    return [canonk(x) for x in v]
+  if isinstance(v, tuple):
+    return tuple(canonk(x) for x in v)
+  if isinstance(v, dict):
+    return {canonk(k): canonk(x) for k, x in v.items()}
+  return v
+
+
+def _is_unk(v):
+  return isinstance(v, tuple) and len(v) == 3 and v[0] == 'UNK'
+
+
+def _stored(v):
+  """Does the canonical value hold a placeholder (anywhere, keys included)?"""
+  if _is_unk(v):
+    return True
+  if isinstance(v, (list, tuple)):
+    return any(_stored(x) for x in v)
+  if isinstance(v, dict):
+    return any(_stored(x) for x in v) or any(_stored(x) for x in v.values())
+  return False
+
+
+def _reach(v, want):
+  """Does USING the canonical value reach a placeholder (directly or through a macro)?"""
+  if _is_unk(v):
+    return True
+  if isinstance(v, tuple) and len(v) == 3 and v[0] == 'REF':
+    if v[1].endswith('/gin.macro'):
+      return _reach(want.get((v[1][:-len('/gin.macro')], 'gin.macro'), {}).get('value'), want)
+    return False
+  if isinstance(v, (list, tuple)):
+    return any(_reach(x, want) for x in v)
+  if isinstance(v, dict):
+    return any(_reach(x, want) for x in v) or any(_reach(x, want) for x in v.values())
+  return False
+
+
+def _reference(rows, sk, dep_skipped):
+  """The statement's model: delete what is skipped, stop at the first error. -> (bindings, error class)"""
+  want = {}
+  for lines, target, refs, entries, fl in rows:
+    if fl.get(ERR):
+      return want, Exception       # not unknown, not appliable: some error, whatever the form
+    if [r for r in refs if not covered(r, sk)]:
+      return want, ValueError      # an unknown reference not covered is an error anywhere
+    if target == 'IMPORT':
+      if not sk or (fl.get(DEP) and not dep_skipped):
+        return want, ImportError
+      continue
+    if target is not None:
+      if covered(target, sk):
+        continue                   # the whole binding / block is dropped
+      return want, ValueError
+    for scope, sel, param, val in entries:
+      want.setdefault((scope, sel), {})[param] = val
+  return want, None
+
+
+def _ncm(fn):
+  """-> ('raised', None) for the 'no configurable matching' ValueError, ('ok', result), ('other', exception)"""
+  try:
+    r = fn()
+  except ValueError as e:
+    if 'No configurable matching' in str(e):
+      return 'raised', None
+    return 'other', e
+  except Exception as e:
+    return 'other', e
+  return 'ok', r
+
+
+def _scoped_cons():
+  with gin.config_scope('sc'):
+    return world.cons()
+
+
+def _use_checks(want):
+  """Every way of USING a stored placeholder raises the error; everything that does not use one works."""
+  for sel, fn in (('vw.cons', world.cons), ('vw.lit', world.lit)):
+    top = want.get(('', sel), {})
+    hit = sorted(p for p in top if _reach(top[p], want))
+    st, r = _ncm(fn)
+    if st == 'other':
+      return rt.no('%s(): unexpected %r' % (sel, r))
+    if hit and st != 'raised':
+      return rt.no('consumer of a placeholder must raise (%s, parameters %r)' % (sel, hit))
+    if not hit and st == 'raised':
+      return rt.no('%s() raised though none of its values holds a placeholder' % sel)
+    if len(hit) == 1:
+      # ...but not when the caller supplies the parameter
+      st, r = _ncm(lambda: fn(**{hit[0]: 1}))
+      if st != 'ok':
+        return rt.no('caller-supplied parameter still evaluates the placeholder (%s.%s): %r' % (sel, hit[0], r))
+    # introspection never drops a placeholder and never turns it into something else: it is handed back as it
+    # is, or (where references are resolved) the error is raised
+    for p in sorted(top):
+      if _is_unk(top[p]):
+        st, r = _ncm(lambda: gin.query_parameter(sel + '.' + p))
+        if st == 'other' or (st == 'ok' and canonk(r) != top[p]):
+          return rt.no('query_parameter(%s.%s) -> %s %r' % (sel, p, st, r))
+        st, r = _ncm(lambda: gin.get_bindings(sel, resolve_references=False))
+        if st == 'other' or (st == 'ok' and (p not in r or canonk(r[p]) != top[p])):
+          return rt.no('get_bindings(%s, resolve_references=False) -> %s %r' % (sel, st, r))
+    if top:
+      st, r = _ncm(lambda: gin.get_bindings(sel))
+      if st == 'other':
+        return rt.no('get_bindings(%s) -> %r' % (sel, r))
+      if st == 'raised' and not hit:
+        return rt.no('get_bindings(%s) raised though no value holds a placeholder' % sel)
+      if st == 'ok':
+        if set(r) != set(top):
+          return rt.no('get_bindings(%s) parameters %r != %r' % (sel, sorted(r), sorted(top)))
+        for p in hit:
+          if not _stored(canonk(r[p])):
+            return rt.no('get_bindings(%s): the placeholder in %s was dropped or resolved: %r' % (sel, p, r[p]))
+  # a placeholder in a SCOPED binding: used inside the scope, not outside (outside was checked above)
+  sc = want.get(('sc', 'vw.cons'))
+  if sc:
+    merged = dict(want.get(('', 'vw.cons'), {}))
+    merged.update(sc)
+    hit = [p for p in merged if _reach(merged[p], want)]
+    st, r = _ncm(_scoped_cons)
+    if st == 'other' or (hit and st != 'raised') or (not hit and st == 'raised'):
+      return rt.no('vw.cons() under scope sc: %s %r, placeholders in %r' % (st, r, hit))
+  return True
+
+
+MAIN, CHILD = '/c15/main.gin', '/c15/child.gin'
+
+
+def c15_wide(n: int, k0: int, k1: int, k2: int, skip: int, via: int, v0: int) -> bool:
+  """
+  pre: 1 <= n <= 3 and 0 <= k0 < 33 and 0 <= k1 < 33 and 0 <= k2 < 33 and 0 <= skip < 10 and 0 <= via < 5
+  """
+  world.fresh()
+  ks = [rt.pick(k, NW) for k in (k0, k1, k2)[:n]]
+  skip = rt.pick(skip, NWS)
+  via = rt.pick(via, 5)
+  sk = WSKIPS[skip]
+  gin.constant('vwc.V0', v0)
+  rows = [WKINDS[k] for k in ks]
+  rt.sig(('wide', tuple(ks), skip, via), nontrivial=any(r[1] or r[2] or r[4] for r in rows))
+  with rt.native():
+    # acceptable outcomes: the model's; for a module that exists but whose own import fails the statement
+    # ('import of a missing module') can be read both ways, so 'skipped' and 'ImportError' are both accepted
+    outs = [_reference(rows, sk, True)]
+    if sk and any(r[4].get(DEP) for r in rows):
+      outs.append(_reference(rows, sk, False))
+    skarg = sk if isinstance(sk, bool) else type(sk)(sk)
+    text = lambda rs: ''.join('\n'.join(r[0]) + '\n' for r in rs)
+    exc = None
+    try:
+      if via == 0:
+        gin.parse_config(text(rows), skip_unknown=skarg)
+      elif via == 1:       # the same text as a file
+        world.use_mem_fs({MAIN: text(rows)})
+        gin.parse_config_file(MAIN, skip_unknown=skarg)
+      elif via == 2:       # ... as an included file (skip_unknown travels with the include)
+        world.use_mem_fs({CHILD: text(rows)})
+        gin.parse_config("include '%s'\n" % CHILD, skip_unknown=skarg)
+      else:                # ... as a file followed by a list of binding strings; 4: with the automatic finalize
+        world.use_mem_fs({MAIN: text(rows[:-1])})
+        gin.parse_config_files_and_bindings([MAIN], list(rows[-1][0]), finalize_config=(via == 4),
+                                            skip_unknown=skarg)
+    except Exception as e:
+      exc = e
+    got = {key: {p: canonk(v) for p, v in d.items()} for key, d in gc._CONFIG.items()}
+    verdict = None
+    for want, error in outs:
+      held = any(_stored(v) for d in want.values() for v in d.values())
+      auto = via == 4 and error is None and held      # the automatic finalize must reject the placeholders
+      if error is not None:
+        ok = isinstance(exc, error)
+      elif auto:
+        ok = isinstance(exc, ValueError) and 'No configurable matching' in str(exc)
+      else:
+        ok = exc is None
+      if ok and got == want:
+        verdict = (want, error, held, auto)
+        break
+    if verdict is None:
+      want, error = outs[0]
+      if got != want:
+        return rt.no('bindings %r != %r (exception %r)' % (got, want, exc))
+      return rt.no('expected %s, got %r' % (error.__name__ if error else 'no error / the finalize error', exc))
+    want, error, held, auto = verdict
+    if error is not None:
+      return True
+  # ---- known bindings are really applied (value for all ints) -----------------------------
+  if 0 in ks:
+    world.dflt()
+    if not rt.same('known binding applied', world.LOG[-1][1][0], v0):
+      return False
+  with rt.native():
+    if ('', 'vw.allow_a') in want:
+      world.allow_a()
+      if world.LOG[-1][1][0] != 2:
+        return rt.no('known binding (allow-listed parameter) not applied')
+    # ---- placeholders raise when used ... ----------------------------------------------------
+    r = _use_checks(want)
+    if r is not True:
+      return r
+    # ---- ... and at finalize ------------------------------------------------------------------
+    if via == 4:
+      if not auto and not gin.config_is_locked():
+        return rt.no('finalize_config=True did not finalize')
+      return True
+    try:
+      gin.finalize()
+      if held:
+        return rt.no('finalize must reject placeholders')
+    except ValueError as e:
+      if not held or 'No configurable matching' not in str(e):
+        return rt.no('finalize raised %r' % (e,))
+    return True
+
+
+REPK = [0, 2, 13, 6]      # the statement that goes last / into the bindings list in the file-level partitions
+HARNESSES['c15_wide'] = dict(
+    fn='c15_wide',
+    anchors=['gin.config:_should_skip', 'gin.config:configurable_reference', 'gin.config:parse_config',
+             'gin.config:find_unknown_references_hook', 'gin.config:_iterate_flattened_values',
+             'gin.config:get_bindings', 'gin.config:query_parameter', 'gin.config:__deepcopy__',
+             'gin.config:_print_unknown_import_message', 'gin.selector_map:matching_selectors'],
+    smoke=[dict(n=3, k0=11, k1=12, k2=0, skip=1, via=0, v0=5),
+           dict(n=3, k0=13, k1=16, k2=17, skip=2, via=0, v0=5),
+           dict(n=3, k0=14, k1=15, k2=18, skip=9, via=0, v0=5),
+           dict(n=3, k0=19, k1=20, k2=21, skip=7, via=0, v0=5),
+           dict(n=3, k0=22, k1=23, k2=24, skip=4, via=0, v0=5),
+           dict(n=3, k0=25, k1=31, k2=32, skip=1, via=0, v0=5),
+           dict(n=2, k0=0, k1=26, k2=0, skip=1, via=0, v0=5),
+           dict(n=2, k0=31, k1=27, k2=0, skip=2, via=0, v0=5),
+           dict(n=2, k0=0, k1=28, k2=0, skip=8, via=0, v0=5),
+           dict(n=2, k0=1, k1=29, k2=0, skip=8, via=0, v0=5),
+           dict(n=2, k0=3, k1=30, k2=0, skip=1, via=0, v0=5)],
+    tiers={'quick': dict(split=dict(k0=list(range(NW))), fixed=dict(n=2, k2=0, via=0), budget_s=200),
+           'thorough': dict(split=dict(k0=NEWK, k1=[0, 1, 3, 6, 8, 13, 15, 19, 20, 26, 28, 32]),
+                            fixed=dict(n=3, via=0), budget_s=600)},
+    bounds='2 (quick) / 3 (thorough: first from the 22 new kinds, second from 12 representatives) statements from 33 '
+           'kinds = the 11 of c15_skip + placeholders as dict keys (evaluated / unevaluated, scoped, nested), macro '
+           'holding a placeholder and dereferenced by a consumer, top-level unevaluated placeholder, placeholder in a '
+           'scoped binding, scoped unknown binding / block, scoped macro holding a placeholder, known block holding '
+           'unknown references, unknown block holding unknown / known references, near-miss names (known last '
+           'component under a wrong prefix, unknown method of a known class, as target and as reference), ambiguous '
+           'name as target and as reference, known target with a missing / deny-listed / not allow-listed parameter, '
+           'import of an existing module whose own import fails  x  10 forms of skip_unknown (the 8 of c15_skip + a '
+           'list naming KNOWN configurables next to unknown ones + a tuple of references only); after a successful '
+           'parse: call of both consumers with and without the parameter supplied, call under the binding\'s scope, '
+           'query_parameter, get_bindings with and without resolution, finalize')
+HARNESSES['c15_files'] = dict(
+    fn='c15_wide',
+    anchors=['gin.config:parse_config_file', 'gin.config:parse_config_files_and_bindings',
+             'gin.config:_should_skip', 'gin.config:finalize'],
+    smoke=[dict(n=2, k0=3, k1=1, k2=0, skip=2, via=1, v0=5),
+           dict(n=2, k0=6, k1=2, k2=0, skip=4, via=2, v0=5),
+           dict(n=2, k0=1, k1=13, k2=0, skip=5, via=3, v0=5),
+           dict(n=2, k0=5, k1=0, k2=0, skip=1, via=4, v0=5),
+           dict(n=2, k0=16, k1=0, k2=0, skip=7, via=4, v0=5)],
+    tiers={'quick': dict(split=dict(via=[1, 2, 3, 4], skip=[1, 2, 4, 5, 8], k1=REPK), fixed=dict(n=2, k2=0),
+                         budget_s=100),
+           'thorough': dict(split=dict(via=[1, 2, 3, 4], k1=list(range(NW))), fixed=dict(n=2, k2=0),
+                            budget_s=300)},
+    bounds='the text of c15_wide handed over as a file (parse_config_file), as an included file (include statement: '
+           'skip_unknown travels with it), and as a file plus a list of binding strings '
+           '(parse_config_files_and_bindings without / with the automatic finalize, which must reject placeholders): '
+           '2 statements, first from all 33 kinds, last from 4 (quick) / 33 (thorough), x True, list, tuple, set, '
+           'list naming known configurables (quick) / all 10 forms (thorough)')
 
 
 # ---- dynamic registration: 'known' = resolvable through the file's own imports ----------------
-import os as _os
-import sys as _sys
-_sys.path.insert(0, _os.path.join(_os.path.dirname(_os.path.dirname(_os.path.dirname(
-    _os.path.abspath(__file__)))), 'fixtures'))
 import vfx.alpha.mod as _A
 
 DR = 'from __gin__ import dynamic_registration\nimport vfx.alpha.mod as am\n'
+MISSING = 'MISSING'    # the row starts with the import of a missing module
 DKINDS = [
-    # (line, unknown name targeted / referenced or None, entries applied)
-    ('am.fn.x = %vwc.V0', None, None, ('fn', 'x')),
-    ('am.nosuch.x = 1', 'am.nosuch', None, None),
-    ('zz.fn.x = 1', 'zz.fn', None, None),
-    ('am.consumer.p = @am.Cls()', None, None, ('consumer', 'p')),
-    ('am.consumer.q = @am.nosuch()', None, 'am.nosuch', ('consumer', 'q')),
-    ('am.Cls.x = 5', None, None, ('Cls', 'x')),
+    # (text, unknown name targeted or None, unknown name referenced or None,
+    #  entries applied [(last component of the configurable, parameter, canonical value)], flags)
+    ('am.fn.x = %vwc.V0', None, None, [('fn', 'x', ('REF', 'vwc.V0/gin.constant', True))], {}),
+    ('am.nosuch.x = 1', 'am.nosuch', None, [], {}),
+    ('zz.fn.x = 1', 'zz.fn', None, [], {}),
+    ('am.consumer.p = @am.Cls()', None, None, [('consumer', 'p', ('REF', 'am.Cls', True))], {}),
+    ('am.consumer.q = @am.nosuch()', None, 'am.nosuch', [('consumer', 'q', U('am.nosuch', True))], {}),
+    ('am.Cls.x = 5', None, None, [('Cls', 'x', 5)], {}),
     # `qm` is an alias only an EARLIER parse imported (its members are registered as vfx.alpha.qm.*):
     # in this file it is provided by no import, hence unknown
-    ('qm.fn.y = 1', 'qm.fn', None, None),
-    ('am.consumer.q = @qm.Cls()', None, 'qm.Cls', ('consumer', 'q')),
+    ('qm.fn.y = 1', 'qm.fn', None, [], {}),
+    ('am.consumer.q = @qm.Cls()', None, 'qm.Cls', [('consumer', 'q', U('qm.Cls', True))], {}),
+    # --- kinds 8.. are only reached by c15_dynamic_wide ---
+    # block form on a missing attribute / on an importable class
+    ('am.nosuch:\n  x = 1\n  y = [2]', 'am.nosuch', None, [], {}),
+    ('am.Cls:\n  x = 6', None, None, [('Cls', 'x', 6)], {}),
+    # missing attribute one level further down (a method that a known class does not have)
+    ('am.Cls.nometh.m = 1', 'am.Cls.nometh', None, [], {}),
+    # known block holding a known unevaluated reference and a nested unevaluated placeholder
+    ('am.consumer:\n  p = @am.Cls\n  q = [@am.nosuch]', None, 'am.nosuch',
+     [('consumer', 'p', ('REF', 'am.Cls', False)), ('consumer', 'q', [U('am.nosuch', False)])], {}),
+    # placeholder as a dict key
+    ('am.consumer.q = {@am.nosuch(): 1}', None, 'am.nosuch', [('consumer', 'q', {U('am.nosuch', True): 1})], {}),
+    # a missing module under dynamic registration: the alias it would have bound stays unknown
+    ('import c15fx_no_such_mod as nm\nnm.fn.x = 1', 'nm.fn', None, [], {MISSING: 1}),
+    ('import c15fx_no_such_mod as nm\nam.consumer.p = @nm.Cls()', None, 'nm.Cls',
+     [('consumer', 'p', U('nm.Cls', True))], {MISSING: 1}),
 ]
-DSKIPS = [False, True, ['am.nosuch', 'zz.fn', 'qm.fn', 'qm.Cls'], ['zz.fn']]
+ND = len(DKINDS)
+DALL = ['am.nosuch', 'zz.fn', 'qm.fn', 'qm.Cls', 'am.Cls.nometh', 'nm.fn', 'nm.Cls']
+DSKIPS = [False, True, ['am.nosuch', 'zz.fn', 'qm.fn', 'qm.Cls'], ['zz.fn'],
+          # forms 4.. are only reached by c15_dynamic_wide
+          tuple(DALL), {'am.nosuch', 'nm.fn'}, set(DALL)]
+NDS = len(DSKIPS)
+assert (ND, NDS) == (15, 7)      # the literal bounds in the `pre:` line of c15_dynamic_wide
+
+
+def _dyn_body(ks, skip, pre, v0):
+  from vf.harness import c19
+  sk = DSKIPS[skip]
+  gin.constant('vwc.V0', v0)
+  rt.sig(('dynamic', tuple(ks), skip, pre), nontrivial=True)
+  try:
+    with rt.native():
+      if pre:
+        # an earlier, unrelated parse already registered everything: must make no difference
+        gin.parse_config(DR.replace(' as am', ' as qm') + 'qm.fn.y = 1\nqm.Cls.x = 0\nqm.consumer.q = 0\n')
+        gc._CONFIG.clear(); gc._CONFIG_PROVENANCE.clear()
+      want, error = {}, None
+      for k in ks:
+        line, target, ref, entries, fl = DKINDS[k]
+        if fl.get(MISSING) and not sk:
+          error = (ImportError,)
+          break
+        if ref is not None and not covered(ref, sk):
+          error = (NameError, AttributeError, ValueError)
+          break
+        if target is not None:
+          if covered(target, sk):
+            continue
+          error = (NameError, AttributeError, ValueError)
+          break
+        for name, param, val in entries:
+          want[(name, param)] = val
+      text = DR + '\n'.join(DKINDS[k][0] for k in ks) + '\n'
+      exc = None
+      try:
+        gin.parse_config(text, skip_unknown=sk if isinstance(sk, bool) else type(sk)(sk))
+      except Exception as e:
+        exc = e
+      if error is not None:
+        if not isinstance(exc, error):
+          return rt.no('uncovered unknown must raise, got %r' % (exc,))
+      elif exc is not None:
+        return rt.no('unexpected %r' % (exc,))
+      # bindings applied, with their values: a placeholder is told apart from a reference
+      got = {(sel.split('.')[-1], p): canonk(v) for (sc, sel), d in gc._CONFIG.items() for p, v in d.items()}
+      if sorted(got) != sorted(want):
+        return rt.no('bindings applied %r, expected %r (skip_unknown=%r, pre-registered=%r)' %
+                     (sorted(got), sorted(want), sk, pre))
+      if got != want:
+        return rt.no('values bound %r, expected %r (skip_unknown=%r, pre-registered=%r)' % (got, want, sk, pre))
+      if error is None:
+        # placeholders raise when used and at finalize; references to importable names work
+        cb = {p: v for (name, p), v in want.items() if name == 'consumer'}
+        if cb:
+          del _A.CALLS[:]
+          st, r = _ncm(lambda: gin.get_configurable(_A.consumer)())
+          hit = any(_stored(v) for v in cb.values())
+          if st == 'other' or (hit and st != 'raised') or (not hit and st != 'ok'):
+            return rt.no('consumer(): %s %r with bindings %r' % (st, r, cb))
+          if st == 'ok' and cb.get('p') == ('REF', 'am.Cls', True) and not isinstance(r[0], _A.Cls):
+            return rt.no('evaluated reference to an importable class gave %r' % (r,))
+        held = any(_stored(v) for v in want.values())
+        st, r = _ncm(gin.finalize)
+        if st == 'other' or (held and st != 'raised') or (not held and st != 'ok'):
+          return rt.no('finalize: %s %r, placeholders stored: %r' % (st, r, held))
+    if error is None and 0 in ks:
+      del _A.CALLS[:]
+      gin.get_configurable(_A.fn)()
+      return rt.same('importable configurable configured', _A.CALLS[-1][1], v0)
+    return True
+  finally:
+    c19.cleanup_vfx()
 
 
 def c15_dynamic(n: int, k0: int, k1: int, k2: int, skip: int, pre: bool, v0: int) -> bool:
@@ -185,49 +614,20 @@ def c15_dynamic(n: int, k0: int, k1: int, k2: int, skip: int, pre: bool, v0: int
   ks = [rt.pick(k, 8) for k in (k0, k1, k2)[:n]]
   skip = rt.pick(skip, 4)
   pre = rt.flag(pre)
-  sk = DSKIPS[skip]
-  gin.constant('vwc.V0', v0)
-  rt.sig(('dynamic', tuple(ks), skip, pre), nontrivial=True)
-  try:
-    with rt.native():
-      if pre:
-        # an earlier, unrelated parse already registered everything: must make no difference
-        gin.parse_config(DR.replace(' as am', ' as qm') + 'qm.fn.y = 1\nqm.Cls.x = 0\nqm.consumer.q = 0\n')
-        gc._CONFIG.clear(); gc._CONFIG_PROVENANCE.clear()
-      want, error = [], None
-      for k in ks:
-        line, target, ref, entry = DKINDS[k]
-        if ref is not None and not covered(ref, sk):
-          error = (NameError, AttributeError, ValueError)
-          break
-        if target is not None:
-          if covered(target, sk):
-            continue
-          error = (NameError, AttributeError, ValueError)
-          break
-        want.append(entry)
-      text = DR + '\n'.join(DKINDS[k][0] for k in ks) + '\n'
-      exc = None
-      try:
-        gin.parse_config(text, skip_unknown=sk)
-      except Exception as e:
-        exc = e
-      if error is not None:
-        if not isinstance(exc, error):
-          return rt.no('uncovered unknown must raise, got %r' % (exc,))
-      elif exc is not None:
-        return rt.no('unexpected %r' % (exc,))
-      got = sorted((sel.split('.')[-1], p) for (sc, sel), d in gc._CONFIG.items() for p in d)
-      if got != sorted(set(want)):
-        return rt.no('bindings applied %r, expected %r (skip_unknown=%r, pre-registered=%r)' %
-                     (got, sorted(set(want)), sk, pre))
-    if error is None and 0 in ks:
-      del _A.CALLS[:]
-      gin.get_configurable(_A.fn)()
-      return rt.same('importable configurable configured', _A.CALLS[-1][1], v0)
-    return True
-  finally:
-    c19.cleanup_vfx()
+  return _dyn_body(ks, skip, pre, v0)
+
+
+def c15_dynamic_wide(n: int, k0: int, k1: int, k2: int, skip: int, pre: bool, v0: int) -> bool:
+  """
+  pre: 1 <= n <= 3 and 0 <= k0 < 15 and 0 <= k1 < 15 and 0 <= k2 < 15 and 0 <= skip < 7
+  """
+  from vf.harness import c19
+  world.fresh()
+  c19.cleanup_vfx()
+  ks = [rt.pick(k, ND) for k in (k0, k1, k2)[:n]]
+  skip = rt.pick(skip, NDS)
+  pre = rt.flag(pre)
+  return _dyn_body(ks, skip, pre, v0)
 
 
 HARNESSES['c15_dynamic'] = dict(
@@ -240,7 +640,23 @@ HARNESSES['c15_dynamic'] = dict(
                             fixed=dict(n=3), budget_s=300)},
     bounds='dynamic registration against the fixture package: 3 statements from 8 kinds (importable and not yet '
            'registered function / class / reference, missing attribute, name not imported, reference to a missing '
-           'attribute, a binding / reference through an alias that only an earlier parse imported) x 4 forms of skip_unknown x registry pre-populated by an earlier parse or not')
+           'attribute, a binding / reference through an alias that only an earlier parse imported) x 4 forms of skip_unknown x registry pre-populated by an earlier parse or not; '
+           'stored values compared (placeholder vs reference), the consumer is called and finalize() is run')
+HARNESSES['c15_dynamic_wide'] = dict(
+    fn='c15_dynamic_wide',
+    anchors=['gin.config:_should_skip', 'gin.config:_resolve_selector', 'gin.config:find_unknown_references_hook',
+             'gin.config:_print_unknown_import_message'],
+    smoke=[dict(n=3, k0=8, k1=9, k2=10, skip=4, pre=False, v0=4),
+           dict(n=3, k0=11, k1=13, k2=0, skip=6, pre=True, v0=4),
+           dict(n=3, k0=3, k1=12, k2=14, skip=1, pre=False, v0=4)],
+    tiers={'quick': dict(split=dict(k0=list(range(ND))), fixed=dict(n=2, k2=0), budget_s=200),
+           'thorough': dict(split=dict(k0=list(range(ND)), k1=list(range(ND))), fixed=dict(n=3), budget_s=600)},
+    bounds='dynamic registration: 2 (quick) / 3 (thorough) statements from 15 kinds = the 8 of c15_dynamic + block on a '
+           'missing attribute, block on an importable class, missing method of a known class, known block holding a '
+           'known unevaluated reference and a nested placeholder, placeholder as a dict key, import of a missing '
+           'module followed by a binding / a reference through the alias it would have bound  x  7 forms of '
+           'skip_unknown (the 4 of c15_dynamic + tuple and set covering everything, set covering part) x registry '
+           'pre-populated or not; values compared, consumer called, finalize() run')
 
 
 # ---- a name that becomes known half-way through one parse (its import comes after its first mention) ----
